@@ -29,7 +29,14 @@ def opPred : P String := do
     let spec := match Spec.fuzzySpec rel abs a b with
       | some v => showVerdict (.ok v)
       | none => "E"
-    pure s!"hyp={showBool hyp} model={showVerdict m} spec={if hyp then spec else "-"}"
+    -- mhyp: the model is meant to reproduce the implementation (wider than the theorems' hyp):
+    -- two float32 arrays with tolerances whose float32 roundings stay finite
+    let f32ok : Tol → Bool := fun t => match t with
+      | .num u => (rndMag f32 u 0).isSome
+      | .dflt => true
+      | _ => false
+    let mhyp := hyp || (a.dtype == .flt f32 && b.dtype == .flt f32 && f32ok rel && f32ok abs)
+    pure s!"hyp={showBool hyp} mhyp={showBool mhyp} model={showVerdict m} spec={if hyp then spec else "-"}"
   | "default" =>
     let m := defaultCheck rel abs a b
     let exact := !a.dtype.hasFloats && !b.dtype.hasFloats
